@@ -8,7 +8,9 @@ import (
 	"reflect"
 	"strconv"
 
+	"go.lstv.dev/util/date"
 	"go.lstv.dev/util/size"
+	"go.lstv.dev/util/uu"
 
 	"verif/ref"
 	"verif/rt"
@@ -89,6 +91,7 @@ func c04Case(w *rt.W, s uint64, cfg int, containers bool) {
 		}
 	}
 	// text
+	foreignActivity(int(s%1000), "size") // a date, an ID, a numeral formatted or refused right before
 	mt, err := sz.MarshalText()
 	w.Eval(1)
 	if err != nil {
@@ -109,6 +112,7 @@ func c04Case(w *rt.W, s uint64, cfg int, containers bool) {
 		fail("text-roundtrip", "MarshalText -> UnmarshalText ("+string(mt)+")", fmt.Sprint(uint64(ut), " err=", err), dec)
 	}
 	// JSON standalone
+	foreignActivity(int(s%1000)+3, "size")
 	mj, err := sz.MarshalJSON()
 	w.Eval(1)
 	if err != nil {
@@ -162,6 +166,7 @@ func c04Case(w *rt.W, s uint64, cfg int, containers bool) {
 	// renderings
 	// the renderings are requested in different orders (HTML before plain pretty and the other way
 	// round): what is parsed back must not depend on what was rendered just before
+	foreignActivity(int(s%1000)+5, "size")
 	var pretty string
 	if s%2 == 0 {
 		_ = sz.PrettyHTML()
@@ -189,6 +194,25 @@ func c04Case(w *rt.W, s uint64, cfg int, containers bool) {
 	w.Eval(1)
 	if !containers {
 		return
+	}
+	{ // a record as programs have them: a date and an ID in front of the size
+		type record struct {
+			Day   date.Date `json:"day"`
+			ID    uu.ID     `json:"id"`
+			Quota size.Size `json:"quota"`
+			Day2  date.Date `json:"day2"`
+			Used  size.Size `json:"used"`
+		}
+		rec := record{date.New(2024, 2, 29), uu.ID{Higher: s, Lower: ^s}, sz, date.New(1999, 12, 31), size.Size(s ^ 0x3333)}
+		rb, err := json.Marshal(rec)
+		var rback record
+		if err == nil {
+			err = json.Unmarshal(rb, &rback)
+		}
+		w.Eval(2)
+		if err != nil || rback != rec {
+			fail("container-roundtrip-mixed-record", "json.Marshal -> json.Unmarshal of a record with date, ID and sizes ("+string(rb)+")", fmt.Sprint(rback, " err=", err), fmt.Sprint(rec))
+		}
 	}
 	other := size.Size(s ^ 0x5555)
 	doc := c04Doc{A: sz, P: &sz, L: []size.Size{sz, 0, other, sz}, M: map[string]size.Size{"one": sz, "two": other}, N: c04Inner{X: sz, Y: []*size.Size{&other, nil, &sz}}, K: map[size.Size]int{sz: 1, other: 2}}
